@@ -31,7 +31,7 @@ BOUNDS = {
     "thorough": "L=24 and L=25, full hit menu, additional chain families",
 }
 REQUIRED_BUCKETS = {t: ["rotation:compared", "rotation:origin-cuts-gene", "rotation:origin-cuts-core", "rotation:origin-in-neighbourhood",
-                        "rotation:skipped-large-region", "order:permutations", "order:subselections", "rotation:candidates>1"]
+                        "rotation:skipped-large-region", "order:permutations", "order:subselections", "rotation:candidates>1", "rotation:gene-with-long-intron"]
                     for t in ("quick", "thorough")}
 GAPS = (0, 1, 2, 3, 4, 6)
 N_CHUNKS = 16
@@ -49,9 +49,48 @@ def gap_layouts(L, k, first=5):
             yield starts
 
 
+def _two_exon_gene(start, intron, L, rotation, strand):
+    """exons [start, start+2) and [start+2+intron, start+3+intron) (three coding bases in all), rebuilt for the given origin: an
+    exon cut by the origin becomes two parts; reverse-strand parts are stored last exon first"""
+    from antismash.common.secmet.locations import CompoundLocation, FeatureLocation  # pylint: disable=import-outside-toplevel
+    parts = []
+    for first, length in ((start, 2), (start + 2 + intron, 1)):
+        begin = (first - rotation) % L
+        if begin + length <= L:
+            parts.append(FeatureLocation(begin, begin + length, strand))
+        else:
+            parts += [FeatureLocation(begin, L, strand), FeatureLocation(0, begin + length - L, strand)]
+    if strand == -1:
+        parts.reverse()
+    return CompoundLocation(parts)
+
+
 def world_for(starts, L, circ, rotation=0):
-    genes = [[f"g{i}", enc(ring_loc((s - rotation) % L, W.GENE_LEN, L, 1 if i % 2 == 0 else -1))] for i, s in enumerate(starts)]
+    """starts: gene start positions; an entry [start, intron] stands for a two-exon gene with an intron of that length"""
+    genes = []
+    for i, s in enumerate(starts):
+        strand = 1 if i % 2 == 0 else -1
+        if isinstance(s, (list, tuple)):
+            genes.append([f"g{i}", enc(_two_exon_gene(s[0], s[1], L, rotation, strand))])
+        else:
+            genes.append([f"g{i}", enc(ring_loc((s - rotation) % L, W.GENE_LEN, L, strand))])
     return {"L": L, "circ": circ, "genes": genes}
+
+
+def intron_layouts(L):
+    """one gene with a long intron (longer than any other gene of the record) and two ordinary genes placed inside the intron,
+    next to either exon or away from the gene"""
+    for intron in (5, 9):
+        long_gene = [2, intron]
+        second_exon = 2 + 2 + intron
+        inside = [4 + k for k in range(0, intron - W.GENE_LEN + 1, 2)]
+        after = [second_exon + 1 + gap for gap in (0, 2, 4)]
+        spots = inside + [s for s in after if s + W.GENE_LEN <= L - 1]
+        for a, b in itertools.combinations(spots, 2):
+            if b - a >= W.GENE_LEN or (a in inside) != (b in inside):
+                yield [long_gene, a, b]
+        for a in spots:
+            yield [long_gene, a]
 
 
 def run_pipeline(world, hits, rules_spec):
@@ -122,6 +161,9 @@ def shards(tier):
             nchunks = 2 if fam[0].startswith("chain") else N_CHUNKS
             for chunk in range(nchunks):
                 out.append(["rotation", L, fam[0], chunk, nchunks, tier])
+    for fam in ("mixed", "cond-a-not-b", "cond-cds-a-and-b"):
+        for chunk in range(4):
+            out.append(["rotation-intron", 24, fam, chunk, 4, tier])
     for L in lengths[:1]:
         for circ in (False, True):
             for fam in ("mixed", "superiors", "mixed4"):
@@ -192,11 +234,14 @@ def check_order(world, hits, rules_spec, order):
 
 def run_shard(shard):
     res = Result()
-    if shard[0] == "rotation":
+    if shard[0] in ("rotation", "rotation-intron"):
         _, L, famname, chunk, nchunks, tier = shard
-        fam = [f for f in families(tier) if f[0] == famname][0]
+        fam = [f for f in c03.families("thorough") if f[0] == famname][0] if shard[0] == "rotation-intron" else \
+            [f for f in families(tier) if f[0] == famname][0]
         index = 0
-        for starts in gap_layouts(L, 3):
+        for starts in (gap_layouts(L, 3) if shard[0] == "rotation" else intron_layouts(L)):
+            if shard[0] == "rotation-intron":
+                res.buckets["rotation:gene-with-long-intron"] += 1
             names = [f"g{i}" for i in range(len(starts))]
             for hits in hit_tables(names, fam[2], tier):
                 index += 1
@@ -254,7 +299,7 @@ def run_shard(shard):
 
 def replay(case):
     if case["kind"] == "rotation":
-        fam = [f for f in families("thorough") if f[0] == case["family"]][0]
+        fam = ([f for f in families("thorough") if f[0] == case["family"]] or [f for f in c03.families("thorough") if f[0] == case["family"]])[0]
         return check_rotation(case["starts"], case["L"], case["hits"], fam[1], case["k"])
     fam = MIXED4 if case["family"] == "mixed4" else [f for f in c03.families("thorough") if f[0] == case["family"]][0]
     return check_order(case["world"], case["hits"], fam[1], tuple(case["order"]))
